@@ -9,6 +9,7 @@ def pStr (tok : String) : Option Str := decTok tok
 
 def pLevel (t : String) : Option LevelArg :=
   if t = "bad" then some .bad
+  else if t = "dflt" then some (.name Dispatch.Gen.addDefaultLevelName)      -- `add` without `level=`
   else if t.startsWith "n:" then (pStr (t.drop 2).toString).map .name
   else if t.startsWith "i:" then ((t.drop 2).toString.toInt?).map .int
   else none
@@ -52,6 +53,7 @@ def pPrim (s : String) : Option Op :=
       | some l, some f, some z => some (.add ⟨l, f, z, false⟩) | _, _, _ => none)
   | ["add", l, f, z, k] => (match pLevel l, pFilter f, pBool z, pBool k with
       | some l, some f, some z, some k => some (.add ⟨l, f, z, k⟩) | _, _, _, _ => none)
+  | ["addbad"] => some .addBad
   | ["rm", i] => i.toInt?.map .remove
   | ["rmall"] => some .removeAll
   | ["rmbad"] => some .removeBad
@@ -64,6 +66,8 @@ def pPrim (s : String) : Option Op :=
   | ["disbad"] => some (.activateBad false)
   | ["log", l, m, z] => (match pLevel l, pMod m, pBool z with
       | some l, some m, some z => some (.log l m z) | _, _, _ => none)
+  | ["logd", l, m, z, e, p, st] => (match pLevel l, pMod m, pBool z, pBool e, pMod p, pBool st with
+      | some l, some m, some z, some e, some p, some st => some (.logDuring l m z e p st) | _, _, _, _, _, _ => none)
   | _ => none
 
 def pOp (s : String) : Option Op :=
